@@ -27,6 +27,32 @@ property statement.
             letter least significant, as the pinned tree does, or most significant), but the same one for the
             whole call.  Sequences shorter than k (no window; the pinned tree raises in conv1d) and sequences
             with all-zero columns are outside the statement's quantifier and are not exercised.
+
+Coverage added by the audit of this driver (every new key of a case dict has a default, so stored cases of the
+older layout replay unchanged):
+ defaults   every function is also called with its keyword arguments OMITTED (case key 'omit': None-valued
+            options are not passed at all): count_annotations(X), pairwise_annotations(X) (must be the symmetric
+            count), pairwise_annotations_spacing(X) (symmetric, max_distance 100 -> last axis of length 100).  Only
+            the counts are compared then (the statement fixes no default dtype); tables are chosen so that every
+            expected count fits the documented default dtype.
+ layouts    index tensors that are not contiguous (every second column of a wider tensor, a transposed view),
+            float32 tensors holding integers (the form the repository's own test uses, count_annotations only),
+            small integer dtypes for the indices (int16 / int8 / uint8, where all values fit), pandas Series with a
+            permuted non-default index, DataFrames with anonymous integer column names and a non-default index with
+            repeated labels (the columns are positional in the docstring), the tuple form with the annotation vector
+            given as an (n, 1) int32 tensor (what annotate_seqlets returns) and as a list instead of a tuple.
+ shapes     explicit shapes far wider than the observed maxima (up to +40 rows / +60 columns, so that the flattened
+            cell index exceeds the range of the small index dtypes), shape given as a list.
+ edges      the corners of the quantifier: 200 rows in one cell, a single row in cell (7, 9), 200 rows of one
+            example (19900 pairs) for pairwise_annotations and pairwise_annotations_spacing.
+ coords     pairwise_annotations_spacing on tables translated by genomic offsets (1e6, 3e9 with int64 input); the
+            gaps and hence the expected tensor are those of the untranslated table.
+ triples    (quick tier too) every three-row table over spans with starts 0-3, lengths 1-2 in every listing order,
+            so that two pairs of one anchor row fall into one cell in each order.
+ kmers      one-hot input as a permuted (batch, length, letters) view and as every second position of a longer
+            tensor, uint8 / float64 one-hot, scores as int64 / int32 / float64 tensors and as a strided view, integer
+            scores of magnitude up to 3000 (sums exact in float32), sequences of length 5000 and 40000
+            (homopolymers and near-homopolymers: one k-mer counted ~40000 times).
 """
 import itertools
 import random
@@ -39,16 +65,25 @@ from tangermeme.annotate import count_annotations, pairwise_annotations, pairwis
 from tangermeme.kmers import kmers
 
 SCOPE = {
-    'quick': 'count_annotations: 1500 random tables (1-200 rows, 1-8 examples, 1-10 annotation types, skewed and uniform), 5 input forms, '
-             '6 dtypes, dim None/0/1, shape None or >= observed; pairwise_annotations: 600 tables (1-200 rows, pair count <= 3000), '
-             'symmetric True/False, shape None or larger; pairwise_annotations_spacing: every 2-row table with starts 0-8, lengths 1-4, '
+    'quick': 'count_annotations: corner tables (200 rows in one cell, single row (7, 9), ...) and 1500 random tables (1-200 rows, 1-8 examples, '
+             '1-10 annotation types, skewed and uniform), 9 input forms (contiguous / strided / transposed / float32 tensor, tuple or list of '
+             'tensor / numpy / Series vectors, Series with permuted index), index dtypes int64 / int32 / int16 / int8 / uint8, '
+             '6 output dtypes and the default call without keywords, dim None/0/1, shape None, >= observed, or far wider (up to +40 x +60; tuple or list); '
+             'pairwise_annotations: corner tables (200 rows of one example = 19900 pairs) and 600 tables (1-200 rows, pair count <= 3000), '
+             'same input forms and index dtypes, symmetric True/False and the default call (must be symmetric), output dtypes incl. uint8 / float32 '
+             'where the counts fit, shape None or larger (up to +40); pairwise_annotations_spacing: every 2-row table with starts 0-8, lengths 1-4, '
              'max_distance 1-5 (all relative positions: abutting, overlapping, nested, coincident, gap == max_distance, farther), '
+             'every 3-row table over spans with starts 0-3, lengths 1-2 (all listing orders), max_distance 1-3, '
              '4 x 400 random tables (classes: disjoint without gap == max_distance / with overlaps / with gap == max_distance / free; '
-             '1-200 rows, pair count <= 3000), tensor / DataFrame / tuple forms, max_distance 1-60; kmers: every sequence of length k..6 over 4 letters '
+             '1-200 rows, pair count <= 3000; a fifth of them translated by 1e6 or 3e9), one 200-row single-example table, '
+             'tensor (contiguous / strided) / DataFrame (named or anonymous columns, non-default index) / tuple and list forms '
+             '(annotation vector 1-D or (n, 1) int32), max_distance 1-60 or omitted (= 100), default call without keywords; '
+             'kmers: every sequence of length k..6 over 4 letters '
              'for k 1-4 (and over 2, 3 letters), with and without integer scores, 300 random batches (1-4 sequences, length <= 300, '
-             '1-5 letters, k 1-4)',
+             '1-5 letters, k 1-4), one-hot as contiguous / permuted / strided tensor of 6 dtypes, scores as float32 / float64 / int64 / int32 '
+             '(contiguous or strided, magnitude <= 9 or <= 3000), 12 long batches (length 5000 / 40000, homopolymer, near-homopolymer, random)',
     'thorough': 'as quick with 6000 / 4000 / 4 x 2500 random tables (pair count <= 20000), 2-row tables with starts 0-11, lengths 1-5, '
-                'max_distance 1-7; every 3-row table with starts 0-4, lengths 1-2, max_distance 1-3; kmers 3000 random batches',
+                'max_distance 1-7; every 3-row table with starts 0-4, lengths 1-2, max_distance 1-3; kmers 3000 random batches, 60 long batches',
 }
 
 DT = {'uint8': torch.uint8, 'int8': torch.int8, 'int16': torch.int16, 'int32': torch.int32, 'int64': torch.int64,
@@ -89,20 +124,39 @@ def _vec(vals, kind, idt='int64'):
 def _pair_input(rows, form, idt):
     """(n, 2) annotation table in the requested input form"""
     e, a = [r[0] for r in rows], [r[1] for r in rows]
+    n = len(rows)
     if form == 'tensor':
         return torch.tensor(rows, dtype=getattr(torch, idt)).reshape(-1, 2)
+    if form == 'tensor-float':
+        # integers held in a float tensor: torch.Tensor([[0, 0], ...]) as in the repository's test (count_annotations only)
+        return torch.tensor(rows, dtype=torch.float32).reshape(-1, 2)
+    if form == 'tensor-strided':
+        # columns 0 and 2 of a wider table whose other columns hold unrelated values
+        W = torch.full((n, 4), 5, dtype=getattr(torch, idt))
+        W[:, 0] = torch.tensor(e, dtype=W.dtype)
+        W[:, 2] = torch.tensor(a, dtype=W.dtype)
+        return W[:, ::2]
+    if form == 'tensor-tview':
+        # (n, 2) view of a (2, n) tensor: strides (1, n)
+        return torch.tensor([e, a], dtype=getattr(torch, idt)).T
     if form == 'tuple-tensor':
         return (_vec(e, 'tensor', idt), _vec(a, 'tensor', idt))
     if form == 'tuple-numpy':
         return (_vec(e, 'numpy', idt), _vec(a, 'numpy', idt))
     if form == 'tuple-series':
         return (_vec(e, 'series', idt), _vec(a, 'series', idt))
+    if form == 'tuple-series-idx':
+        # both vectors carry the same permuted, non-default index (e.g. columns of a filtered, re-sorted DataFrame)
+        index = (numpy.arange(n)[::-1] * 3 + 2).tolist()
+        return (pandas.Series(numpy.array(e, dtype=idt), index=index), pandas.Series(numpy.array(a, dtype=idt), index=index))
     if form == 'list-mixed':
         return [_vec(e, 'series', idt), _vec(a, 'tensor', idt)]
     raise ValueError(form)
 
 
-PAIR_FORMS = ['tensor', 'tuple-tensor', 'tuple-numpy', 'tuple-series', 'list-mixed']
+PAIR_FORMS = ['tensor', 'tuple-tensor', 'tuple-numpy', 'tuple-series', 'list-mixed', 'tensor-strided', 'tensor-tview', 'tuple-series-idx']
+COUNT_FORMS = PAIR_FORMS + ['tensor-float']
+IDTYPES = ['int64', 'int64', 'int32', 'int16', 'uint8', 'int8']       # all index values of the quantifier (<= 199) fit, int8 <= 127
 
 
 # ----------------------------------------------------------------------------------------------
@@ -110,7 +164,8 @@ PAIR_FORMS = ['tensor', 'tuple-tensor', 'tuple-numpy', 'tuple-series', 'list-mix
 # ----------------------------------------------------------------------------------------------
 
 def check_count(case):
-    """case: {'kind': 'count', 'rows': [[e, a]], 'form', 'idtype', 'dtype', 'shape': None|[E, A], 'dim': None|0|1}"""
+    """case: {'kind': 'count', 'rows': [[e, a]], 'form', 'idtype', 'dtype': name | None (not passed), 'shape': None|[E, A],
+    'dim': None|0|1, 'shape_list': bool (shape passed as a list), 'omit': bool (None-valued options are not passed at all)}"""
     out = []
     rows, dim, shape = case['rows'], case['dim'], case['shape']
     E = max(r[0] for r in rows) + 1
@@ -127,9 +182,18 @@ def check_count(case):
         exp = [sum(full[e][a] for e in range(E)) for a in range(A)]
     else:
         exp = [sum(full[e]) for e in range(E)]
+    # counts kept within dtype range (the documented default is uint8)
+    top = max(max(r) for r in full) if dim is None else max(exp)
+    assert top <= DT_MAX[case['dtype'] or 'uint8']
     X = _pair_input(rows, case['form'], case['idtype'])
+    kw = {'dtype': None if case['dtype'] is None else DT[case['dtype']],
+          'shape': None if shape is None else (list(shape) if case.get('shape_list') else tuple(shape)), 'dim': dim}
+    if case['dtype'] is None:
+        del kw['dtype']
+    if case.get('omit'):
+        kw = {k: v for k, v in kw.items() if v is not None}
     try:
-        y = count_annotations(X, dtype=DT[case['dtype']], shape=None if shape is None else tuple(shape), dim=dim)
+        y = count_annotations(X, **kw)
     except Exception as e:
         return ['count_annotations raised %s' % _exc(e)]
     if not isinstance(y, torch.Tensor):
@@ -137,7 +201,7 @@ def check_count(case):
     eshape = (E, A) if dim is None else ((A,) if dim == 0 else (E,))
     if tuple(y.shape) != eshape:
         return ['count_annotations shape %s, expected %s (dim=%s, shape=%s)' % (tuple(y.shape), eshape, dim, shape)]
-    if y.dtype != DT[case['dtype']]:
+    if case['dtype'] is not None and y.dtype != DT[case['dtype']]:
         out.append('count_annotations dtype %s, requested %s' % (y.dtype, case['dtype']))
     got = y.to(torch.float64).tolist()
     want = [[float(v) for v in r] for r in exp] if dim is None else [float(v) for v in exp]
@@ -156,9 +220,35 @@ def _rand_pairs(rng, n_rows, n_ex, n_an):
     return rows
 
 
+def _count_corners():
+    """the corners of the quantifier (rows, dims to try)"""
+    yield [[0, 0]] * 200                                   # 200 rows in one cell (uint8 holds it)
+    yield [[7, 9]] * 200                                   # ... in the last cell, all other cells empty
+    yield [[7, 9]]                                         # single row, largest indices
+    yield [[0, 0]]                                         # single row, 1 x 1 result
+    yield [[e, a] for e in range(8) for a in range(10)] * 2 + [[7, 0]] * 40      # 200 rows, every cell occupied
+    yield [[i % 8, 9 - i % 10] for i in range(200)]
+    yield [[7 - i % 8, 0] for i in range(199)] + [[0, 9]]
+    yield [[3, 4], [3, 4], [0, 0], [3, 4]]                 # duplicates, not adjacent
+
+
 def _run_count(rep, lim):
     rng, thorough = rep.rng, rep.tier == 'thorough'
     dts = ['uint8', 'int16', 'int32', 'int64', 'float32', 'float64']
+    k = 0
+    for rows in _count_corners():
+        rows = [list(r) for r in rows]
+        for dim in (None, 0, 1):
+            for form in COUNT_FORMS:
+                k += 1
+                E, A = max(r[0] for r in rows) + 1, max(r[1] for r in rows) + 1
+                shape = [None, [E, A], [E + 2, A], [E, A + 3], [E + 1, A + 50]][k % 5]
+                omit = k % 4 == 0
+                case = {'kind': 'count', 'rows': rows, 'form': form, 'idtype': IDTYPES[k % len(IDTYPES)], 'dtype': None if omit else dts[k % len(dts)],
+                        'shape': shape, 'dim': dim, 'shape_list': k % 3 == 0, 'omit': omit}
+                v = check_count(case)
+                rep.case(('count-corner', k, repr(rows), dim, form), nontrivial=len(rows) > 1, sample=None, section='count_annotations-corners')
+                lim.report([x[:400] for x in v], case, None)
     for k in range(6000 if thorough else 1500):
         if rep.out_of_time():
             return
@@ -169,9 +259,12 @@ def _run_count(rep, lim):
         if rng.random() < 0.4:
             E = max(r[0] for r in rows) + 1
             A = max(r[1] for r in rows) + 1
-            shape = [E + rng.choice([0, 0, 1, 3]), A + rng.choice([0, 0, 1, 4])]
-        case = {'kind': 'count', 'rows': rows, 'form': PAIR_FORMS[k % len(PAIR_FORMS)], 'idtype': rng.choice(['int64', 'int64', 'int32']),
-                'dtype': dts[k % len(dts)] if k % 3 else 'uint8', 'shape': shape, 'dim': rng.choice([None, None, 0, 1])}
+            shape = [E + rng.choice([0, 0, 1, 3, 40]), A + rng.choice([0, 0, 1, 4, 60])]
+        idt = rng.choice(IDTYPES)
+        omit = rng.random() < 0.15
+        case = {'kind': 'count', 'rows': rows, 'form': COUNT_FORMS[k % len(COUNT_FORMS)], 'idtype': idt,
+                'dtype': None if omit else (dts[k % len(dts)] if k % 3 else 'uint8'), 'shape': shape, 'dim': rng.choice([None, None, 0, 1]),
+                'shape_list': rng.random() < 0.2, 'omit': omit}
         v = check_count(case)
         rep.case(('count', k, repr(rows)), nontrivial=n_rows > 1, sample=case if n_rows <= 6 else None, section='count_annotations')
         lim.report([x[:400] for x in v], case, None)
@@ -193,7 +286,8 @@ def _unordered_pairs(rows):
 
 
 def check_pair(case):
-    """case: {'kind': 'pair', 'rows': [[e, a]], 'form', 'idtype', 'dtype', 'symmetric', 'shape': None|int}"""
+    """case: {'kind': 'pair', 'rows': [[e, a]], 'form', 'idtype', 'dtype': name | None (not passed), 'symmetric': bool | None (not passed:
+    the default must be the symmetric count), 'shape': None|int, 'omit': bool (None-valued options are not passed at all)}"""
     out = []
     rows = case['rows']
     A = max(r[1] for r in rows) + 1
@@ -201,22 +295,32 @@ def check_pair(case):
         assert case['shape'] >= A
         A = case['shape']
     U = _unordered_pairs(rows)
+    assert max(list(U.values()) + [0]) <= DT_MAX[case['dtype'] or 'int64']
+    symmetric = True if case['symmetric'] is None else case['symmetric']
     X = _pair_input(rows, case['form'], case['idtype'])
+    kw = {'shape': case['shape']}
+    if case['dtype'] is not None:
+        kw['dtype'] = DT[case['dtype']]
+    if case['symmetric'] is not None:
+        kw['symmetric'] = case['symmetric']
+    if case.get('omit'):
+        kw = {k: v for k, v in kw.items() if v is not None}
     try:
-        y = pairwise_annotations(X, dtype=DT[case['dtype']], symmetric=case['symmetric'], shape=case['shape'])
+        y = pairwise_annotations(X, **kw)
     except Exception as e:
         return ['pairwise_annotations raised %s' % _exc(e)]
     if not isinstance(y, torch.Tensor) or tuple(y.shape) != (A, A):
         return ['pairwise_annotations shape %s, expected %s' % (tuple(getattr(y, 'shape', ())), (A, A))]
-    if y.dtype != DT[case['dtype']]:
+    if case['dtype'] is not None and y.dtype != DT[case['dtype']]:
         out.append('pairwise_annotations dtype %s, requested %s' % (y.dtype, case['dtype']))
     g = y.to(torch.float64).tolist()
     for a in range(A):
         for b in range(a, A):
             u = U.get((a, b), 0)
-            if case['symmetric']:
+            if symmetric:
                 if g[a][b] != u or g[b][a] != u:
-                    out.append('pairwise_annotations[%d, %d] = %s, [%d, %d] = %s, expected %d unordered pairs (both entries)' % (a, b, g[a][b], b, a, g[b][a], u))
+                    out.append('pairwise_annotations%s[%d, %d] = %s, [%d, %d] = %s, expected %d unordered pairs (both entries)'
+                               % (' (default call)' if case['symmetric'] is None else '', a, b, g[a][b], b, a, g[b][a], u))
             else:
                 tot = g[a][b] if a == b else g[a][b] + g[b][a]
                 if tot != u or g[a][b] < 0 or g[b][a] < 0:
@@ -233,10 +337,41 @@ def _n_pairs(rows):
     return sum(v * (v - 1) // 2 for v in c.values())
 
 
+def _pick_pair_dtype(rng, U, k):
+    m = max(list(U.values()) + [0])
+    ok = [d for d in ('int64', 'int64', 'int32', 'float64', 'int16', 'uint8', 'float32') if DT_MAX[d] >= m]
+    return ok[k % len(ok)]
+
+
+def _pair_corners():
+    yield [[0, 0]] * 200                                   # one example, one annotation: 19900 pairs on the diagonal
+    yield [[7, 9 * (i % 2)] for i in range(200)]           # one example (the last), two annotations: 4950 + 4950 + 10000
+    yield [[i % 8, i % 10] for i in range(200)]
+    yield [[e, 9] for e in range(8)]                       # one row per example: no pair at all
+    yield [[7, 9]]
+    yield [[0, 0], [0, 0]]
+    yield [[2, 1], [2, 0]]                                 # listed in decreasing annotation order
+    yield [[1, 3], [0, 3], [1, 0], [0, 0], [1, 3]]         # examples interleaved
+
+
 def _run_pair(rep, lim):
     rng, thorough = rep.rng, rep.tier == 'thorough'
     max_pairs = 20000 if thorough else 3000
-    dts = ['int64', 'int64', 'int32', 'float64', 'int16']
+    k = 0
+    for rows in _pair_corners():
+        rows = [list(r) for r in rows]
+        U = _unordered_pairs(rows)
+        for form in (PAIR_FORMS if len(rows) < 100 else PAIR_FORMS[k % 3::3]):
+            if rep.out_of_time():
+                return
+            k += 1
+            sym = [True, None, False, True][k % 4]
+            case = {'kind': 'pair', 'rows': rows, 'form': form, 'idtype': IDTYPES[k % len(IDTYPES)],
+                    'dtype': None if sym is None else _pick_pair_dtype(rng, U, k), 'symmetric': sym,
+                    'shape': [None, None, 10, 50][k % 4], 'omit': sym is None}
+            v = check_pair(case)
+            rep.case(('pair-corner', k, repr(rows), form), nontrivial=len(U) > 0, sample=None, section='pairwise_annotations-corners')
+            lim.report([x[:400] for x in v], case, None)
     for k in range(4000 if thorough else 600):
         if rep.out_of_time():
             return
@@ -248,9 +383,11 @@ def _run_pair(rep, lim):
                 break
         shape = None
         if rng.random() < 0.3:
-            shape = max(r[1] for r in rows) + 1 + rng.choice([0, 1, 3])
-        case = {'kind': 'pair', 'rows': rows, 'form': PAIR_FORMS[k % len(PAIR_FORMS)], 'idtype': rng.choice(['int64', 'int64', 'int32']),
-                'dtype': dts[k % len(dts)], 'symmetric': rng.random() < 0.75, 'shape': shape}
+            shape = max(r[1] for r in rows) + 1 + rng.choice([0, 1, 3, 40])
+        omit = rng.random() < 0.15
+        sym = None if omit else rng.random() < 0.75
+        case = {'kind': 'pair', 'rows': rows, 'form': PAIR_FORMS[k % len(PAIR_FORMS)], 'idtype': rng.choice(IDTYPES),
+                'dtype': None if omit else _pick_pair_dtype(rng, _unordered_pairs(rows), k), 'symmetric': sym, 'shape': shape, 'omit': omit}
         v = check_pair(case)
         rep.case(('pair', k, repr(rows)), nontrivial=_n_pairs(rows) > 0, sample=case if n_rows <= 6 else None, section='pairwise_annotations')
         lim.report([x[:400] for x in v], case, None)
@@ -282,10 +419,19 @@ def _spacing_expected(rows, max_distance):
 
 
 def _spacing_input(rows, form, idt):
+    n = len(rows)
     if form == 'tensor':
         return torch.tensor(rows, dtype=getattr(torch, idt)).reshape(-1, 4)
+    if form == 'tensor-strided':
+        # every second column of a wider table whose other columns hold unrelated values
+        W = torch.full((n, 8), 3, dtype=getattr(torch, idt))
+        W[:, ::2] = torch.tensor(rows, dtype=W.dtype).reshape(-1, 4)
+        return W[:, ::2]
     if form == 'df':
         return pandas.DataFrame(numpy.array(rows, dtype=idt).reshape(-1, 4), columns=['example_idx', 'motif_idx', 'start', 'end'])
+    if form == 'df-anon':
+        # the docstring fixes the ORDER of the four columns, not their names; index with repeated, unsorted labels
+        return pandas.DataFrame(numpy.array(rows, dtype=idt).reshape(-1, 4), index=(numpy.arange(n)[::-1] // 2).tolist())
     three = numpy.array([[r[0], r[2], r[3]] for r in rows], dtype=idt).reshape(-1, 3)
     ann = numpy.array([r[1] for r in rows], dtype=idt)
     if form == 'tuple-df':
@@ -294,32 +440,50 @@ def _spacing_input(rows, form, idt):
         return (three, ann)
     if form == 'tuple-tensor':
         return (torch.from_numpy(three), torch.from_numpy(ann))
+    if form == 'tuple-df-col2d':
+        # seqlet table + the (n, 1) int32 index tensor that annotate_seqlets(..., n_nearest=1) returns
+        return (pandas.DataFrame(three, columns=['example_idx', 'start', 'end']), torch.tensor([[r[1]] for r in rows], dtype=torch.int32).reshape(-1, 1))
+    if form == 'list-df-tensor':
+        return [pandas.DataFrame(three, columns=['chrom', 'start', 'end'], index=(numpy.arange(n) + 10).tolist()), torch.from_numpy(ann)]
     raise ValueError(form)
 
 
-SPACING_FORMS = ['tensor', 'df', 'tuple-df', 'tuple-numpy', 'tuple-tensor']
+SPACING_FORMS = ['tensor', 'df', 'tuple-df', 'tuple-numpy', 'tuple-tensor', 'df-anon', 'tensor-strided', 'tuple-df-col2d', 'list-df-tensor']
+DEFAULT_MAX_DISTANCE = 100          # documented default of pairwise_annotations_spacing
 
 
 def check_spacing(case):
-    """case: {'kind': 'spacing', 'rows': [[e, a, start, end]], 'form', 'idtype', 'dtype', 'max_distance', 'symmetric',
-    'shape': None|int}"""
+    """case: {'kind': 'spacing', 'rows': [[e, a, start, end]], 'form', 'idtype', 'dtype': name | None (not passed), 'max_distance': int |
+    None (not passed: 100), 'symmetric': bool | None (not passed: symmetric), 'shape': None|int, 'omit': bool (None-valued options are
+    not passed at all)}"""
     out = []
-    rows, md = case['rows'], case['max_distance']
+    rows = case['rows']
+    md = DEFAULT_MAX_DISTANCE if case['max_distance'] is None else case['max_distance']
+    symmetric = True if case['symmetric'] is None else case['symmetric']
     assert all(r[2] < r[3] for r in rows)
     A = max(r[1] for r in rows) + 1
     if case['shape'] is not None:
         assert case['shape'] >= A
         A = case['shape']
     U = _spacing_expected(rows, md)
-    assert max(list(U.values()) + [0]) * 2 <= DT_MAX[case['dtype']]
+    assert max(list(U.values()) + [0]) * 2 <= DT_MAX[case['dtype'] or 'uint8']
     X = _spacing_input(rows, case['form'], case['idtype'])
+    kw = {'shape': case['shape']}
+    if case['max_distance'] is not None:
+        kw['max_distance'] = md
+    if case['dtype'] is not None:
+        kw['dtype'] = DT[case['dtype']]
+    if case['symmetric'] is not None:
+        kw['symmetric'] = case['symmetric']
+    if case.get('omit'):
+        kw = {k: v for k, v in kw.items() if v is not None}
     try:
-        y = pairwise_annotations_spacing(X, max_distance=md, dtype=DT[case['dtype']], symmetric=case['symmetric'], shape=case['shape'])
+        y = pairwise_annotations_spacing(X, **kw)
     except Exception as e:
         return ['pairwise_annotations_spacing raised %s (every pair must either be counted at its gap or contribute nothing)' % _exc(e)]
     if not isinstance(y, torch.Tensor) or tuple(y.shape) != (A, A, md):
         return ['pairwise_annotations_spacing shape %s, expected %s' % (tuple(getattr(y, 'shape', ())), (A, A, md))]
-    if y.dtype != DT[case['dtype']]:
+    if case['dtype'] is not None and y.dtype != DT[case['dtype']]:
         out.append('pairwise_annotations_spacing dtype %s, requested %s' % (y.dtype, case['dtype']))
     g = y.to(torch.float64)
     exp = torch.zeros(A, A, md, dtype=torch.float64)
@@ -327,7 +491,7 @@ def check_spacing(case):
         exp[a, b, d] += u
         if a != b:
             exp[b, a, d] += u
-    if case['symmetric']:
+    if symmetric:
         got = g
     else:
         # only the total of the two triangles is fixed by the statement
@@ -339,8 +503,9 @@ def check_spacing(case):
     if not torch.equal(got, exp):
         bad = (got != exp).nonzero().tolist()
         a, b, d = bad[0]
-        out.append('pairwise_annotations_spacing differs from direct counting at %d entries; first: entry (%d, %d, d=%d) = %s, expected %s%s'
-                   % (len(bad), a, b, d, got[a, b, d].item(), exp[a, b, d].item(), '' if case['symmetric'] else ' (sum of both triangles)'))
+        out.append('pairwise_annotations_spacing%s differs from direct counting at %d entries; first: entry (%d, %d, d=%d) = %s, expected %s%s'
+                   % (' (default call)' if case['symmetric'] is None else '', len(bad), a, b, d, got[a, b, d].item(), exp[a, b, d].item(),
+                      '' if symmetric else ' (sum of both triangles)'))
     return out
 
 
@@ -418,7 +583,7 @@ def _report_spacing(lim, case, v):
     """attribute a failing table to 2-row sub-tables: an overlapping pair / a pair at gap == max_distance"""
     if not v:
         return
-    rows, md = case['rows'], case['max_distance']
+    rows, md = case['rows'], DEFAULT_MAX_DISTANCE if case['max_distance'] is None else case['max_distance']
     ov, eq = _classify(rows, md)
     explained = False
     for pair, key in ((ov, 'spacing-overlapping-pair-indexed-by-negative-gap'), (eq, 'spacing-gap-equal-max_distance-raises')):
@@ -475,20 +640,45 @@ def _run_spacing(rep, lim):
                                  section='spacing-2rows-%s' % ('overlap' if d < 0 else 'gap<md' if d < md else 'gap==md' if d == md else 'gap>md'))
                         _report_spacing(lim, case, v)
     rep.mark_exhaustive('pairwise_annotations_spacing on every two-row table with starts 0-%d, lengths 1-%d, max_distance 1-%d' % (smax, lmax, mdmax))
-    if thorough:
-        spans = [(s, s + l) for s in range(0, 5) for l in (1, 2)]
-        for md in (1, 2, 3):
-            for trip in itertools.product(spans, repeat=3):
-                if rep.out_of_time():
-                    return
-                n += 1
-                rows = [[0, (n + i) % 2, sp[0], sp[1]] for i, sp in enumerate(trip)]
-                case = {'kind': 'spacing', 'rows': rows, 'form': SPACING_FORMS[n % len(SPACING_FORMS)], 'idtype': 'int64',
-                        'dtype': 'int32', 'max_distance': md, 'symmetric': True, 'shape': None}
-                v = check_spacing(case)
-                rep.case(('sp3', md, trip), sample=None, section='spacing-3rows')
-                _report_spacing(lim, case, v)
-        rep.mark_exhaustive('pairwise_annotations_spacing on every three-row table with starts 0-4, lengths 1-2, max_distance 1-3')
+    # exhaustive three-row tables (all listing orders, as the product is over ordered triples): two pairs of one row in one cell,
+    # listed before / between / after its partners
+    spans = [(s0, s0 + l) for s0 in range(0, 5 if thorough else 4) for l in (1, 2)]
+    for md in (1, 2, 3):
+        for trip in itertools.product(spans, repeat=3):
+            if rep.out_of_time():
+                rep.note('time budget reached in the three-row spacing enumeration')
+                return
+            n += 1
+            anns = [[(n + i) % 2 for i in range(3)], [0, 0, 0], [1, 0, 0], [0, 2, 0]][(n // 3) % 4]
+            rows = [[0, anns[i], sp[0], sp[1]] for i, sp in enumerate(trip)]
+            case = {'kind': 'spacing', 'rows': rows, 'form': SPACING_FORMS[n % len(SPACING_FORMS)], 'idtype': 'int64',
+                    'dtype': 'int32', 'max_distance': md, 'symmetric': n % 5 != 0, 'shape': None}
+            v = check_spacing(case)
+            rep.case(('sp3', md, trip), sample=None, section='spacing-3rows')
+            _report_spacing(lim, case, v)
+    rep.mark_exhaustive('pairwise_annotations_spacing on every three-row table with starts 0-%d, lengths 1-2, max_distance 1-3' % (4 if thorough else 3))
+    # corners: default call (max_distance 100, uint8, symmetric), 200 rows of one example
+    corner = [
+        [[0, 0, 0, 5], [0, 1, 8, 12], [0, 1, 8, 12], [1, 0, 3, 4]],                             # the two coincident spans share a cell
+        [[0, 1, 0, 4], [0, 0, 103, 110], [0, 2, 104, 105], [0, 1, 204, 206], [0, 1, 205, 207]],   # gaps 99 (counted), 100 (not), 98, 99 ...
+        [[3, 2, 50, 60], [3, 2, 10, 20], [3, 0, 159, 170], [3, 0, 160, 170], [3, 1, 60, 61]],
+        [[0, 0, 10 * i, 10 * i + 10 - i % 3] for i in range(200)],                               # 200 rows, one example, 19900 pairs
+        [[i % 2, i % 3, 7 * i, 7 * i + 1 + i % 6] for i in range(200)],
+    ]
+    k = 0
+    for rows in corner:
+        for form in (SPACING_FORMS if len(rows) < 100 else SPACING_FORMS[k % 4::4]):
+            if rep.out_of_time():
+                return
+            k += 1
+            omit = k % 2 == 0
+            U = _spacing_expected(rows, DEFAULT_MAX_DISTANCE if omit else 100 + k)
+            case = {'kind': 'spacing', 'rows': rows, 'form': form, 'idtype': ['int64', 'int32', 'int16'][k % 3],
+                    'dtype': None if omit else _pick_dtype(rng, U), 'max_distance': None if omit else 100 + k,
+                    'symmetric': None if omit else k % 3 != 0, 'shape': [None, 3, None, 12][k % 4], 'omit': omit}
+            v = check_spacing(case)
+            rep.case(('sp-corner', k, repr(rows), form), nontrivial=len(U) > 0, sample=None, section='spacing-corners')
+            _report_spacing(lim, case, v)
     per = 2500 if thorough else 400
     max_rows = 200
     max_pairs = 20000 if thorough else 3000
@@ -497,7 +687,8 @@ def _run_spacing(rep, lim):
             if rep.out_of_time():
                 rep.note('time budget reached in the random spacing tables (%s, %d)' % (cls, k))
                 return
-            md = rng.choice([1, 2, 3, 5, 10, 20, rng.randint(1, 60)])
+            omit = rng.random() < 0.1
+            md = DEFAULT_MAX_DISTANCE if omit else rng.choice([1, 2, 3, 5, 10, 20, rng.randint(1, 60)])
             for _ in range(20):
                 n_rows = rng.choice([2, 3, 5, rng.randint(1, 30), rng.randint(1, max_rows)])
                 n_ex, n_an = rng.randint(1, 8), rng.randint(1, 10)
@@ -507,11 +698,22 @@ def _run_spacing(rep, lim):
             else:
                 continue
             U = _spacing_expected(rows, md)
+            if omit and max(list(U.values()) + [0]) * 2 > DT_MAX['uint8']:
+                omit = False
             shape = None
             if rng.random() < 0.25:
-                shape = max(r[1] for r in rows) + 1 + rng.choice([0, 1, 2])
-            case = {'kind': 'spacing', 'rows': rows, 'form': SPACING_FORMS[k % len(SPACING_FORMS)], 'idtype': rng.choice(['int64', 'int64', 'int32']),
-                    'dtype': _pick_dtype(rng, U), 'max_distance': md, 'symmetric': rng.random() < 0.75, 'shape': shape}
+                shape = max(r[1] for r in rows) + 1 + rng.choice([0, 1, 2, 15])
+            idt = rng.choice(['int64', 'int64', 'int32', 'int16'])
+            if idt == 'int16' and max(r[3] for r in rows) > 30000:
+                idt = 'int32'
+            if rng.random() < 0.2:
+                # genomic coordinates: the whole table translated; gaps unchanged
+                off = rng.choice([10 ** 6, 10 ** 6 + 1, 248956422, 3 * 10 ** 9])
+                rows = [[r[0], r[1], r[2] + off, r[3] + off] for r in rows]
+                idt = 'int64' if off > 2 ** 31 - 10 ** 4 else rng.choice(['int64', 'int32'])
+            case = {'kind': 'spacing', 'rows': rows, 'form': SPACING_FORMS[k % len(SPACING_FORMS)], 'idtype': idt,
+                    'dtype': None if omit else _pick_dtype(rng, U), 'max_distance': None if omit else md,
+                    'symmetric': None if omit else rng.random() < 0.75, 'shape': shape, 'omit': omit}
             v = check_spacing(case)
             rep.case(('sp', cls, k, repr(rows)), nontrivial=len(U) > 0, sample=case if len(rows) <= 5 else None, section='spacing-random-%s' % cls)
             _report_spacing(lim, case, v)
@@ -536,6 +738,21 @@ def _kmer_seqs(case):
     n = case['n']
     if case.get('all'):
         return [list(t) for t in itertools.product(range(n), repeat=case['L'])]
+    if case.get('long'):
+        # {'seed', 'L', 'B', 'mode': 'homo' | 'near' | 'random'}: long sequences are regenerated, not stored
+        g = case['long']
+        r = random.Random(repr(('kmer-long', g['seed'])))
+        seqs = []
+        for _ in range(g['B']):
+            if g['mode'] == 'random':
+                sq = [r.randrange(n) for _ in range(g['L'])]
+            else:
+                sq = [r.randrange(n)] * g['L']
+                if g['mode'] == 'near':
+                    for _ in range(1 + g['L'] // 2000):
+                        sq[r.randrange(g['L'])] = r.randrange(n)
+            seqs.append(sq)
+        return seqs
     return [[int(ch) for ch in s] for s in case['seqs']]
 
 
@@ -545,26 +762,52 @@ def _kmer_scores(case, seqs):
     if case.get('score_seed') is None:
         return None
     r = random.Random(('kmer-scores', case['score_seed']).__repr__())
-    return [[r.randint(-5, 5) for _ in s] for s in seqs]
+    m = case.get('smag', 5)
+    return [[r.randint(-m, m) for _ in s] for s in seqs]
+
+
+def _kmer_onehot(seqs, n, xdtype, layout):
+    """one-hot tensor of logical shape (B, n, L); layout 'contiguous' | 'permuted' (a view of a (B, L, n) tensor) | 'strided' (every
+    second position of a (B, n, 2L) tensor whose other positions hold a different sequence)"""
+    B, L = len(seqs), len(seqs[0])
+    idx = torch.tensor(seqs, dtype=torch.int64)
+    dt = getattr(torch, xdtype)
+    if layout == 'permuted':
+        X = torch.zeros(B, L, n, dtype=dt)
+        X.scatter_(2, idx[:, :, None], 1)
+        return X.permute(0, 2, 1)
+    if layout == 'strided':
+        W = torch.zeros(B, n, 2 * L, dtype=dt)
+        both = torch.stack([idx, (idx + 1) % n], dim=2).reshape(B, 2 * L)
+        W.scatter_(1, both[:, None, :], 1)
+        return W[:, :, ::2]
+    X = torch.zeros(B, n, L, dtype=dt)
+    X.scatter_(1, idx[:, None, :], 1)
+    return X
 
 
 def check_kmers(case):
-    """case: {'kind': 'kmers', 'n': letters, 'k', 'xdtype', and either 'all': True, 'L' (every sequence of length L) or
-    'seqs': [digit strings of equal length]; 'scores': None | [[int]] or 'score_seed'}"""
+    """case: {'kind': 'kmers', 'n': letters, 'k', 'xdtype', 'xlayout' (default contiguous), and either 'all': True, 'L' (every sequence
+    of length L), 'long': {...} (regenerated long sequences) or 'seqs': [digit strings of equal length]; 'scores': None | [[int]] or
+    'score_seed' (+ 'smag': magnitude); 'sdtype' (default float32), 'sstrided': scores passed as every second column of a wider tensor}"""
     n, k = case['n'], case['k']
     seqs = _kmer_seqs(case)
     L = len(seqs[0])
     assert L >= k and all(len(s) == L for s in seqs)
     scores = _kmer_scores(case, seqs)
-    X = torch.zeros(len(seqs), n, L, dtype=getattr(torch, case.get('xdtype', 'int8')))
-    idx = torch.tensor(seqs, dtype=torch.int64)
-    X.scatter_(1, idx[:, None, :], 1)
+    X = _kmer_onehot(seqs, n, case.get('xdtype', 'int8'), case.get('xlayout', 'contiguous'))
+    assert tuple(X.shape) == (len(seqs), n, L)
     X0 = X.clone()
     try:
         if scores is None:
             y = kmers(X, k)
         else:
-            y = kmers(X, k, scores=torch.tensor(scores, dtype=torch.float32))
+            S = torch.tensor(scores, dtype=getattr(torch, case.get('sdtype', 'float32')))
+            if case.get('sstrided'):
+                W = torch.full((len(seqs), 2 * L), 7, dtype=S.dtype)
+                W[:, ::2] = S
+                S = W[:, ::2]
+            y = kmers(X, k, scores=S)
     except Exception as e:
         return ['kmers raised %s' % _exc(e)]
     if not isinstance(y, torch.Tensor) or tuple(y.shape) != (len(seqs), n ** k):
@@ -585,8 +828,14 @@ def check_kmers(case):
         if not be:
             first_bad = bad
     i, e = first_bad
-    out.append('kmers row differs from direct counting (either positional convention): sequence %s%s k=%d got %s expected %s'
-               % (''.join(map(str, seqs[i])), '' if scores is None else ' scores %s' % scores[i], k, g[i], e))
+    sq = ''.join(map(str, seqs[i]))
+    if len(sq) > 60:
+        diff = [(j, g[i][j], e[j]) for j in range(len(e)) if g[i][j] != e[j]][:6]
+        out.append('kmers row differs from direct counting (either positional convention): sequence %s... (length %d)%s k=%d, first differing '
+                   'entries (index, got, expected; first-letter-least-significant numbering) %s' % (sq[:40], len(sq), '' if scores is None else ' with scores', k, diff))
+    else:
+        out.append('kmers row differs from direct counting (either positional convention): sequence %s%s k=%d got %s expected %s'
+                   % (sq, '' if scores is None else ' scores %s' % scores[i], k, g[i], e))
     return out
 
 
@@ -594,11 +843,11 @@ def _report_kmers(lim, case, v):
     if not v:
         return
     seqs = _kmer_seqs(case)
-    if len(seqs) > 1:
+    if len(seqs) > 1 and len(seqs[0]) <= 400:
         scores = _kmer_scores(case, seqs)
         for i, s in enumerate(seqs):
-            sub = {'kind': 'kmers', 'n': case['n'], 'k': case['k'], 'xdtype': case.get('xdtype', 'int8'),
-                   'seqs': [''.join(map(str, s))], 'scores': None if scores is None else [scores[i]]}
+            sub = {key: val for key, val in case.items() if key not in ('all', 'L', 'long', 'seqs', 'scores', 'score_seed', 'smag')}
+            sub.update({'seqs': [''.join(map(str, s))], 'scores': None if scores is None else [scores[i]]})
             sv = check_kmers(sub)
             if sv:
                 lim.report([x[:400] for x in sv], sub, None)
@@ -607,9 +856,13 @@ def _report_kmers(lim, case, v):
     lim.report([x[:400] for x in v], small, None)
 
 
+XDT = ['int8', 'float32', 'int64', 'int32', 'uint8', 'float64']
+XLAYOUT = ['contiguous', 'permuted', 'contiguous', 'strided']
+SDT = ['float32', 'int64', 'float64', 'float32', 'int32']
+
+
 def _run_kmers(rep, lim):
     rng, thorough = rep.rng, rep.tier == 'thorough'
-    xd = ['int8', 'float32', 'int64', 'int32']
     c = 0
     for n, maxL in ((4, 6), (2, 6), (3, 6)):
         for k in range(1, 5):
@@ -618,14 +871,30 @@ def _run_kmers(rep, lim):
                     if rep.out_of_time():
                         return
                     c += 1
-                    case = {'kind': 'kmers', 'n': n, 'k': k, 'L': L, 'all': True, 'xdtype': xd[c % 4],
-                            'score_seed': None if sc is None else rep.seed * 100000 + c}
+                    case = {'kind': 'kmers', 'n': n, 'k': k, 'L': L, 'all': True, 'xdtype': XDT[c % len(XDT)], 'xlayout': XLAYOUT[(c // 2) % 4],
+                            'score_seed': None if sc is None else rep.seed * 100000 + c, 'smag': [5, 3000][(c // 2) % 2],
+                            'sdtype': SDT[(c // 2) % len(SDT)], 'sstrided': (c // 2) % 3 == 0}
                     v = check_kmers(case)
                     for _ in range(1):
                         rep.case(('kmers-all', n, k, L, sc), sample=case, section='kmers-exhaustive')
                     rep.sections['kmers-exhaustive-sequences'] = rep.sections.get('kmers-exhaustive-sequences', 0) + n ** L
                     _report_kmers(lim, case, v)
     rep.mark_exhaustive('kmers on every sequence of length k..6 over 4, 3 and 2 letters for k = 1..4, with and without scores')
+    # long sequences: one k-mer counted thousands of times (still exact in float32), scores summing to < 2 ** 24
+    for j in range(60 if thorough else 12):
+        if rep.out_of_time():
+            return
+        L = [40000, 5000, 5000][j % 3]
+        mode = ['homo', 'near', 'random', 'near'][j % 4]
+        n = [4, 4, 2, 5][(j // 2) % 4]
+        k = 1 + (j * 7 // 3) % 4
+        sc = j % 2 == 1
+        case = {'kind': 'kmers', 'n': n, 'k': k, 'long': {'seed': rep.seed * 1000 + j, 'L': L, 'B': 1 + j % 2, 'mode': mode},
+                'xdtype': XDT[j % len(XDT)], 'xlayout': XLAYOUT[j % 4], 'score_seed': rep.seed * 1000 + j if sc else None, 'smag': 20,
+                'sdtype': SDT[j % len(SDT)], 'sstrided': j % 3 == 0}
+        v = check_kmers(case)
+        rep.case(('kmers-long', j), sample=None, section='kmers-long')
+        _report_kmers(lim, case, v)
     for j in range(3000 if thorough else 300):
         if rep.out_of_time():
             return
@@ -639,8 +908,10 @@ def _run_kmers(rep, lim):
             seqs[0] = str(rng.randrange(n)) * L          # homopolymer
         scores = None
         if rng.random() < 0.5:
-            scores = [[rng.randint(-9, 9) for _ in range(L)] for _ in range(B)]
-        case = {'kind': 'kmers', 'n': n, 'k': k, 'seqs': seqs, 'scores': scores, 'xdtype': xd[j % 4]}
+            m = rng.choice([9, 9, 3000])
+            scores = [[rng.randint(-m, m) for _ in range(L)] for _ in range(B)]
+        case = {'kind': 'kmers', 'n': n, 'k': k, 'seqs': seqs, 'scores': scores, 'xdtype': XDT[j % len(XDT)], 'xlayout': rng.choice(XLAYOUT),
+                'sdtype': rng.choice(SDT), 'sstrided': rng.random() < 0.3}
         v = check_kmers(case)
         rep.case(('kmers', j, tuple(seqs)), sample=case if L <= 8 else None, section='kmers-random')
         _report_kmers(lim, case, v)
